@@ -31,6 +31,7 @@ From CSS Require Import Base.PyList ClassDB.Model ClassDB.Proofs Searcher.Model 
   Searcher.StepProofs Searcher.Resume Searcher.QueuePack Searcher.ResumeHist Searcher.Cache Searcher.Pickle.
 From CSS Require Searcher.Contracts RuleDB.Model RuleDB.AddHist RuleDB.SearchHist Spec.FindRule Spec.FindRuleProofs.
 From CSS Require Queue.Model.
+From CSS Require Searcher.Deciders.
 Import ListNotations.
 Open Scope Z_scope.
 
@@ -470,6 +471,67 @@ Proof.
 Qed.
 End Contracts.
 
+(* THE SAME THREE with the hypotheses on the table replaced by booleans the extracted run_c17 evaluates on the table
+   part of EVERY table-universe case (Searcher/SlicingRun.v hyps_c17, last element of the state-machine output; compared
+   with the harness's Python predicates on every such case): bit 0 = (mode =? 0) && table_hyps_b, bit 1 =
+   (mode =? 0) && find_rule_hyps_b with cap = "every strategy can be an equivalence" (true of the table universes'
+   strategy class), bits 3-4 = pe_contractb, sym_contractb.  A case where the bit is false is a case the theorem says
+   nothing about.  items_plainb (in table_hyps_b) is sufficient, not necessary, for twoway_faithful. *)
+Notation pack0 := (pack_of inferral_strategies initial_strategies expansion_strats).
+
+Theorem C17_resumed_search_emptiness_truthful_decided : forall mult ans start calls outs s' es k' extra' evs,
+  Contracts.pe_contractb T pack0 && Contracts.sym_contractb T = true ->
+  run_calls_st mult (fst (init_sstate ans start)) 0 0 calls = (outs, s', es, k', extra') ->
+  (evs = snd (init_sstate ans start) \/ exists p, In (SPacket p evs) es) ->
+  let d := cdb (core s') in
+  (forall l v, In (EvSetEmpty l v) evs -> exists c, label_of Z.eqb (fun c : Z => c) d c = Some l /\ oracle T c = v) /\
+  (forall i c b, nth_error (classes d) i = Some c -> nth_error (empties d) i = Some (Some b) -> b = oracle T c) /\
+  (forall eqv start_label ends' sid parent, In (EvStore eqv start_label ends' sid parent) evs ->
+     store_ok T True d start_label ends' sid parent).
+Proof.
+  intros mult ans start calls outs s' es k' extra' evs H.
+  destruct (proj1 (Contracts.contractsb_spec T pack0) H) as [Hp Hs].
+  exact (C17_resumed_search_emptiness_truthful Hp Hs mult ans start calls outs s' es k' extra' evs).
+Qed.
+
+Theorem C17_resumed_search_gives_add_hist_decided : forall mult ans start calls outs s' es k' extra',
+  (mode =? 0) && Deciders.table_hyps_b T pack0 = true ->
+  run_calls_st mult (fst (init_sstate ans start)) 0 0 calls = (outs, s', es, k', extra') ->
+  exists a, AddHist.add_hist T a /\
+    RuleDB.Model.b_cdb RuleDB.Model.dstore a = cdb (core s') /\
+    RuleDB.Model.d_keys (RuleDB.Model.b_r RuleDB.Model.dstore a) = rstore (core s') /\
+    RuleDB.Model.d_keys (RuleDB.Model.b_e RuleDB.Model.dstore a) = estore (core s') /\
+    EmptyOK (fun k : Z => k) (oracle T) (cdb (core s')).
+Proof.
+  intros mult ans start calls outs s' es k' extra' H. apply andb_prop in H as [Hm H].
+  destruct (Deciders.table_hyps_sound T pack0 H) as (A & B & C & D).
+  exact (C17_resumed_search_gives_add_hist C D mult ans start calls outs s' es k' extra' Hm A B).
+Qed.
+
+Theorem C17_resumed_search_find_rule_total_decided : forall (cap : Z -> bool) mult ans start calls outs s' es k' extra',
+  (mode =? 0) && Deciders.find_rule_hyps_b T pack0 cap = true ->
+  run_calls_st mult (fst (init_sstate ans start)) 0 0 calls = (outs, s', es, k', extra') ->
+  let s := core s' in
+  let d := cdb s in
+  exists a, AddHist.add_hist T a /\ RuleDB.Model.b_cdb RuleDB.Model.dstore a = d /\
+    RuleDB.Model.d_keys (RuleDB.Model.b_r RuleDB.Model.dstore a) = rstore s /\
+    RuleDB.Model.d_keys (RuleDB.Model.b_e RuleDB.Model.dstore a) = estore s /\
+  let fr := FindRule.find_rule T cap (FindRule.dict_lookup (RuleDB.Model.b_r RuleDB.Model.dstore a))
+              (FindRule.dict_lookup (RuleDB.Model.b_e RuleDB.Model.dstore a)) d in
+  (forall p cs0, In (p, cs0) (rstore s) ->
+     exists f, fr p cs0 = (d, inl f) /\ FindRuleProofs.form_key T d f = Some (p, cs0)) /\
+  (forall p cs0, In (p, cs0) (estore s) ->
+     exists c, cs0 = [c] /\
+     ((forall C, label_of Z.eqb (fun c : Z => c) d C = Some c -> oracle T C = false) ->
+      exists f, fr p [c] = (d, inl f) /\ FindRuleProofs.form_key T d f = Some (p, [c])) /\
+     ((forall C, label_of Z.eqb (fun c : Z => c) d C = Some p -> oracle T C = false) ->
+      exists f', fr c [p] = (d, inl f') /\ FindRuleProofs.form_key T d f' = Some (c, [p]))).
+Proof.
+  intros cap mult ans start calls outs s' es k' extra' H. apply andb_prop in H as [Hm H].
+  destruct (Deciders.find_rule_hyps_sound T pack0 cap H) as (A & B & C & D & E & G).
+  exact (C17_resumed_search_find_rule_total C D cap mult ans start calls outs s' es k' extra' Hm A B E G).
+Qed.
+
 End StateMachine.
 
 (* (c) the derived cache of RuleDBBase (Searcher/Cache.v): for every rule store type R,
@@ -825,3 +887,6 @@ Print Assumptions C17_resumed_search_labels.
 Print Assumptions C17_resumed_search_emptiness_truthful.
 Print Assumptions C17_resumed_search_gives_add_hist.
 Print Assumptions C17_resumed_search_find_rule_total.
+Print Assumptions C17_resumed_search_emptiness_truthful_decided.
+Print Assumptions C17_resumed_search_gives_add_hist_decided.
+Print Assumptions C17_resumed_search_find_rule_total_decided.
